@@ -88,6 +88,7 @@ type vEdge struct {
 	Claim  vClaim `json:"claim"`
 	Node   string `json:"node"`
 	SrcOk  bool   `json:"srcOk"`
+	Level  int    `json:"level"` // position of the step in the behaviour TLC generated (walk mode)
 }
 
 // ---------------------------------------------------------------------------
@@ -599,9 +600,9 @@ func (in *vInst) act(e *vEdge) string {
 				}
 				m.aliveNode(a, ch, e.Boot)
 			case "suspect":
-				m.suspectNode(&suspect{Incarnation: c.incMap(cl.Inc), Node: cl.Node, From: cl.From})
+				m.suspectNode(&suspect{Incarnation: c.incMap(cl.Inc), Node: cl.Node, From: in.accuser(e)})
 			case "dead":
-				m.deadNode(&dead{Incarnation: c.incMap(cl.Inc), Node: cl.Node, From: cl.From})
+				m.deadNode(&dead{Incarnation: c.incMap(cl.Inc), Node: cl.Node, From: in.accuser(e)})
 			}
 		case "merge":
 			st := map[string]NodeStateType{"alive": StateAlive, "suspect": StateSuspect, "dead": StateDead, "left": StateLeft}[cl.Kind]
@@ -628,6 +629,32 @@ func (in *vInst) act(e *vEdge) string {
 		return "kind " + e.Kind
 	}
 	return ""
+}
+
+var vAccuserSeq int
+
+// accuser: who signs an accusation about the node itself plays no part in the obligation to refute.  The model
+// names the node itself; in turn the harness lets it be the node itself, a member the node has never heard of, and
+// a member the node has recorded as dead (an asymmetric partition: the node has given up on a peer that is alive
+// and accuses it).  (The preparation is not recorded: the step under test is the accusation.)
+func (in *vInst) accuser(e *vEdge) string {
+	cl := e.Claim
+	if cl.Node != in.c.self || cl.From != in.c.self {
+		return cl.From
+	}
+	vAccuserSeq++
+	switch vAccuserSeq % 3 {
+	case 1:
+		return "q9"
+	case 2:
+		keep := in.s.keep
+		in.s.keep = func(*vLine) bool { return false }
+		in.m.aliveNode(&alive{Incarnation: 1, Node: "q9", Addr: net.ParseIP("10.0.0.77").To4(), Port: 7946, Vsn: []uint8{1, 5, 2, 0, 0, 0}}, nil, false)
+		in.m.deadNode(&dead{Incarnation: 1, Node: "q9", From: in.c.self})
+		in.s.keep = keep
+		return "q9"
+	}
+	return cl.From
 }
 
 // actOverlapped: the edge's claim, with a second, newer alive claim about the same member delivered while the
@@ -699,7 +726,16 @@ func TestVerifViewReplay(t *testing.T) {
 	// delivered on another goroutine.  The membership rules run under the node lock, so the second delivery cannot
 	// get in: the harness looks at the lock (TryLock) - held: the second claim is delivered right after the first
 	// returns (the order the lock enforces); free: it is delivered there and then, inside the callback.
-	overlap := variant >= 100
+	overlap := variant >= 100 && variant < 200
+	// variants >= 200: walk mode.  The edges are the consecutive steps of behaviours TLC generated by simulation
+	// (the level says so): a behaviour is executed step after step on ONE instance, whatever its state has become -
+	// state that a step corrupts without showing it in the projection is met by the steps that follow.  A step
+	// that is not the successor of the previous one starts from a freshly built view, as in the edge mode.
+	walk := variant >= 200 && variant < 300
+	// variants >= 300: epilogue mode.  After the edge's step: time passes (three ticks), the reaper runs, and the
+	// member of the step is heard of again (a newer alive claim, then a death claim) - state that the step left
+	// inconsistent without showing it is met by the steps that follow; all of them are recorded and judged.
+	epilogue := variant >= 300
 	variant %= 100
 	f, err := os.Open(edgesPath)
 	if err != nil {
@@ -740,6 +776,15 @@ func TestVerifViewReplay(t *testing.T) {
 	if overlap {
 		st.Variant += "+overlap"
 	}
+	if walk {
+		st.Variant += "+walk"
+	}
+	if epilogue {
+		st.Variant += "+epilogue"
+	}
+	var cur *vInst
+	var curCfg vCfg
+	curLevel := -1
 	recording := false
 	const batch = 400
 	var sink *vSink
@@ -777,26 +822,41 @@ func TestVerifViewReplay(t *testing.T) {
 					// metadata value, as in the configurations that have one)
 					e.Cfg.AliveDelegate = true
 				}
-				in := vNewInst(t, sink, conc, e.Cfg)
-				why := in.build(e.World, e.Cfg)
-				if why != "" {
-					st.Unconstructible++
-					st.Why[why]++
-					in.retire()
-					continue
-				}
-				names := make([]string, 0, len(e.World.Rec))
-				for name := range e.World.Rec {
-					names = append(names, name)
-				}
-				if diff := vSameWorld(e.World, in.project(names), conc); diff != "" {
-					st.Mismatch++
-					if st.FirstMismatch == "" {
-						b, _ := json.Marshal(e)
-						st.FirstMismatch = diff + " edge=" + string(b)
+				var in *vInst
+				why := ""
+				if walk && cur != nil && e.Level > curLevel && e.Level-curLevel <= 3 && curCfg == e.Cfg {
+					// the next step of the same behaviour (levels in between were ticks of the model's clock)
+					for k := curLevel + 1; k < e.Level; k++ {
+						time.Sleep(conc.tick)
 					}
-					in.retire()
-					continue
+					in = cur
+					st.Why["walk: continued"]++
+				} else {
+					if cur != nil {
+						cur.retire()
+						cur = nil
+					}
+					in = vNewInst(t, sink, conc, e.Cfg)
+					why = in.build(e.World, e.Cfg)
+					if why != "" {
+						st.Unconstructible++
+						st.Why[why]++
+						in.retire()
+						continue
+					}
+					names := make([]string, 0, len(e.World.Rec))
+					for name := range e.World.Rec {
+						names = append(names, name)
+					}
+					if diff := vSameWorld(e.World, in.project(names), conc); diff != "" {
+						st.Mismatch++
+						if st.FirstMismatch == "" {
+							b, _ := json.Marshal(e)
+							st.FirstMismatch = diff + " edge=" + string(b)
+						}
+						in.retire()
+						continue
+					}
 				}
 				sink.mu.Lock()
 				sink.caseID = ids[i]
@@ -807,6 +867,22 @@ func TestVerifViewReplay(t *testing.T) {
 				} else {
 					why = in.act(e)
 				}
+				if epilogue && why == "" && e.Kind != "reap" && e.Claim.Node != "" && e.Claim.Node != conc.self {
+					cl := e.Claim
+					hi := cl.Inc
+					if r, ok := e.World.Rec[cl.Node]; ok && r.Inc > hi {
+						hi = r.Inc
+					}
+					addr := cl.Addr
+					if _, ok := conc.addr[addr]; !ok || cl.Kind != "alive" {
+						addr = "A1"
+					}
+					time.Sleep(3 * conc.tick)
+					in.m.resetNodes()
+					in.m.aliveNode(&alive{Incarnation: conc.incMap(hi + 1), Node: cl.Node, Addr: conc.addr[addr], Port: 7946,
+						Meta: conc.meta["m1"], Vsn: []uint8{1, 5, 2, 0, 0, 0}}, nil, false)
+					in.m.deadNode(&dead{Incarnation: conc.incMap(hi + 1), Node: cl.Node, From: "f9"})
+				}
 				recording = false
 				if why != "" {
 					st.ActFailed++
@@ -814,7 +890,16 @@ func TestVerifViewReplay(t *testing.T) {
 				} else {
 					st.Replayed++
 				}
-				in.retire()
+				if walk && why == "" {
+					cur, curCfg, curLevel = in, e.Cfg, e.Level
+				} else {
+					in.retire()
+					cur = nil
+				}
+			}
+			if cur != nil {
+				cur.retire()
+				cur = nil
 			}
 			synctest.Wait()
 		})
